@@ -13,6 +13,9 @@
 (*             verified independently, the stored leaf and issuers read    *)
 (*             back from storage and compared with the independent RFC     *)
 (*             6962 derivation)                                            *)
+(*   Resub     an accepted leaf of the generation in which two hierarchies  *)
+(*             are accepted, submitted again through the certificate of its *)
+(*             top CA cross-signed by another root (accepted or unknown)    *)
 (*   Restart   the log was loaded again from the same storage; the root    *)
 (*             set it now holds is whatever the next GetRoots reports (the *)
 (*             statement does not say roots persist; acceptance must agree *)
@@ -93,6 +96,18 @@ CaseStep ==
     /\ UNCHANGED <<gen, roots, adopt>>
     /\ l' = l + 1
 
+\* an accepted leaf submitted again through a cross-signed chain (answered from the
+\* same root set; the state does not change)
+ResubStep ==
+    /\ e.ev = "Resub"
+    /\ last' = [kind |-> "submit", c |-> e.c, a |-> e.a]
+    /\ viol' = AddV(ResubVerdict(e.c, e.root2, roots, e.a)
+                    \cup F("HARNESS.InTable", e.c \in Cases /\ e.root2 \in RootNames)
+                    \cup F("HARNESS.ResubOfAccepted", Accept(e.c, roots))
+                    \cup F("HARNESS.NoPendingRestart", ~adopt))
+    /\ UNCHANGED <<gen, roots, adopt, seen>>
+    /\ l' = l + 1
+
 End ==
     /\ e.ev = "End"
     /\ viol' = AddV(F("C09.NoUnexplainedLeaf", e.unattributed = 0))
@@ -101,6 +116,6 @@ End ==
     /\ UNCHANGED <<gen, roots, last, adopt, seen>>
     /\ l' = l + 1
 
-TraceNext == l <= Len(Trace) /\ (Setup \/ ReloadStep \/ RestartStep \/ GetRootsStep \/ CaseStep \/ End)
+TraceNext == l <= Len(Trace) /\ (Setup \/ ReloadStep \/ RestartStep \/ GetRootsStep \/ CaseStep \/ ResubStep \/ End)
 TraceSpec == TraceInit /\ [][TraceNext]_tvars
 =============================================================================
